@@ -265,7 +265,7 @@ func TestStream(t *testing.T) {
 		Check:      checkStreamRecord,
 		NonTrivial: nonTrivial,
 		Classes:    classes,
-		Quick:      7000, Thorough: 120000,
+		Quick:      7000, Thorough: 80000,
 	})
 }
 
@@ -309,13 +309,16 @@ func TestTruncateAll(t *testing.T) {
 			}
 			return out
 		},
-		Quick: 1200, Thorough: 15000,
+		Quick: 1200, Thorough: 10000,
 	})
 }
 
 // ---- MaxSize around every crafted size, every reader family -------------------------------------
 
 func TestMaxSizeGrid(t *testing.T) {
+	if pbt.Shard != 0 && pbt.ReplayPath == "" {
+		t.Skip("fixed grid: shard 0 only")
+	}
 	readers := []readerSpec{
 		{Kind: "bufio", Buf: 16, Under: "bytes"},
 		{Kind: "bufio", Buf: 131, Under: "short", Chunks: []int{3, 0, 50}},
